@@ -64,11 +64,53 @@ def run(repo: Repo, rep: Report, tier: str) -> None:
         if defs:
             dn = cfg.node_of(defs[0])
             rep.check(dn is not None and cfg.dominates(dn, t) and defs[0].lineno < t.line, "population", fq, "count taken immediately before the test", "the count must be taken before the comparison in the same thread", mod=acse, node=defs[0])
+        # ... and nothing takes members out of (or adds to) the counted list before it is measured: an alias that
+        # is edited for another purpose (logging the *other* peers) edits the count
+        aliases = {count_var}
+        for s_ in walk_no_nested(fn):
+            if isinstance(s_, ast.Assign) and isinstance(s_.value, ast.Name) and s_.value.id in aliases:
+                aliases |= {norm(t_) for t_ in s_.targets}
+        muts = []
+        for x in walk_no_nested(fn):
+            if isinstance(x, ast.Call) and isinstance(x.func, ast.Attribute) and norm(x.func.value) in aliases and x.func.attr in ("remove", "pop", "clear", "append", "extend", "insert", "sort", "reverse", "__delitem__", "__setitem__"):
+                muts.append(x)
+            if isinstance(x, (ast.Subscript,)) and isinstance(x.ctx, (ast.Store, ast.Del)) and norm(x.value) in aliases:
+                muts.append(x)
+            if isinstance(x, ast.AugAssign) and norm(x.target) in aliases:
+                muts.append(x)
+        for x in muts:
+            rep.fail("population", fq, enclosing(x, (ast.stmt,)) or x, f"`{norm(x)[:50]}` edits the list whose length is compared with maximum_associations (directly or through an alias of it): the count no longer is the number of live acceptor associations - with this association taken out the AE admits one more than the configured maximum", mod=acse, node=x)
+        if not muts:
+            rep.ok("population", f"{fq} :: {count_var} is not edited between its definition and the test", "")
     ae = repo.mod("ae")
     aa = repo.func("ae", "ApplicationEntity.active_associations")
-    src = [norm(s) for s in walk_no_nested(aa) if isinstance(s, ast.stmt)]
-    okaa = "threads = threading.enumerate()" in src and "t_assocs = [tt for tt in threads if isinstance(tt, Association)]" in src and "return [tt for tt in t_assocs if tt.ae == self]" in src
-    rep.check(okaa, "population", "ae.ApplicationEntity.active_associations", "live threads that are Associations of this AE", "the population must be the AE's live association threads", mod=ae, node=aa)
+    # the population itself, evaluated (sa/minipy.py): among live threads, every Association of this AE whatever its
+    # stage (negotiating, established, releasing, aborted but still alive) - and nothing else
+    from ..minipy import Interp, Obj, Raised, Unsupported
+    import itertools as _it
+
+    me = Obj("ApplicationEntity", {})
+    other = Obj("ApplicationEntity", {})
+    threads = [Obj("Thread", {"name": "worker"})]
+    want = []
+    for k, (ab, sr, es, rl, acc_) in enumerate(_it.product((False, True), repeat=5)):
+        for owner in (me, other):
+            a_ = Obj("Association", {"ae": owner, "is_aborted": ab, "_sent_release": sr, "is_established": es, "is_released": rl, "is_acceptor": acc_, "is_requestor": not acc_, "_sent_abort": ab, "_is_paused": False, "is_rejected": False, "mode": "acceptor" if acc_ else "requestor", "name": f"t{k}", "@is_alive": lambda s_: True})
+            threads.append(a_)
+            if owner is me:
+                want.append(a_)
+    it_ = Interp({"threading": Obj("module", {"@enumerate": lambda s_: list(threads)}), "Association": "Association"})
+    try:
+        got = it_.call_function(aa, {aa.args.args[0].arg: me})
+        miss = [a_ for a_ in want if not any(g_ is a_ for g_ in (got or []))]
+        extra = [g_ for g_ in (got or []) if not any(g_ is a_ for a_ in want)]
+        def _desc(a_):
+            return ", ".join(f"{k_}={a_.attrs[k_]}" for k_ in ("is_established", "is_aborted", "_sent_release", "is_released", "is_acceptor"))
+        rep.check(not miss and not extra, "population", "ae.ApplicationEntity.active_associations", f"{len(want)} live associations of this AE in every stage -> {len(got or [])} returned", f"the population must be every live Association thread of this AE and nothing else{'; left out: one with ' + _desc(miss[0]) if miss else ''}{'; included: a thread that is not an association of this AE' if extra else ''} - an association that is still alive (waiting for the peer's A-RELEASE-RP, or aborting) but not counted lets the AE exceed maximum_associations", mod=ae, node=aa)
+    except Raised as r_:
+        rep.fail("population", "ae.ApplicationEntity.active_associations", f"raises {r_.kind}", "the population could not be computed", mod=ae, node=aa)
+    except Unsupported as exc_:
+        rep.defer(f"ae.ApplicationEntity.active_associations could not be evaluated ({exc_})")
     assoc = repo.mod("association")
     ia = repo.func("association", "Association.is_acceptor")
     rep.check(any(norm(r.value) == "self.mode == MODE_ACCEPTOR" for r in walk_no_nested(ia) if isinstance(r, ast.Return)), "population", "association.Association.is_acceptor", "mode == MODE_ACCEPTOR", "is_acceptor must identify acceptor associations", mod=assoc, node=ia)
